@@ -922,6 +922,12 @@ class BasisManaged(Managed):
         cls = self.__class__
         new = cls.__new__(cls)
         new.__dict__.update(self.__dict__)
+        # the copy must own its arrays: several classes (superoperators,
+        # dipole moments, evolutions) are transformed in place, and an array
+        # shared by two managed objects would be transformed twice
+        for key, val in new.__dict__.items():
+            if isinstance(val, numpy.ndarray):
+                new.__dict__[key] = val.copy()
         cb = new.get_current_basis()
         if cb in self.manager.basis_registered:
             self.manager.register_with_basis(cb, new)
